@@ -11,7 +11,8 @@ from pathlib import Path
 ROOT = Path(__file__).resolve().parent.parent
 WORK = Path(os.environ.get("VERIF_WORK", ROOT / ".work"))
 REPO = Path(os.environ.get("VERIF_REPO", "/repo"))
-EVID = ROOT / "evidence"
+# evidence is only ever written for /repo itself; runs against a scratch copy (mutation self-tests) go elsewhere
+EVID = ROOT / "evidence" if str(REPO) == "/repo" else WORK / "evidence-scratch"
 FINDINGS = ROOT / "known_findings.json"
 
 
@@ -105,7 +106,7 @@ class Check:
     # ------------------------------------------------------------------ finish
     def finish(self, rule: str, explanation: str = "", exhaustive: bool | None = None) -> int:
         wall = time.time() - self.t0
-        EVID.mkdir(exist_ok=True)
+        EVID.mkdir(parents=True, exist_ok=True)
         replay_dir = WORK / "replays"
         replay_dir.mkdir(parents=True, exist_ok=True)
         lines = []
